@@ -229,8 +229,13 @@ func (e *Engine) MustCreateTable(def TableDef) {
 }
 
 // AddColumn appends a column to an existing table (a schema change); existing
-// rows get NULL.
+// rows get NULL. It must not be called by a goroutine that holds an open
+// writing transaction.
 func (e *Engine) AddColumn(tableName string, c ColumnDef) error {
+	// a schema change waits for open writing transactions, whose private
+	// table copies would otherwise overwrite the new shape on commit
+	<-e.wlock
+	defer e.releaseW()
 	e.mu.Lock()
 	defer e.mu.Unlock()
 	t, ok := e.tables[tableName]
